@@ -158,4 +158,242 @@ theorem row_lock_exclusive_nontx (s : State) (A t i : Nat) (T : Table) (cond : C
     rw [h1]
     exact ⟨rfl, hrb⟩
 
+/-- "has modified a row" ⇒ holds its lock: after a successful `tx_update` / `tx_delete` by A every
+    row its condition matched is locked by A (from that statement's time on). -/
+theorem modified_row_locked (s : State) (A t n : Nat) (T : Table) (cond : Cond) (hT : s.tables t = some T) :
+    (∀ upd, (txUpdate s A t cond upd).2 = .okN n →
+      ∀ i ∈ matching T cond, holder (txUpdate s A t cond upd).1 t i = some A) ∧
+    ((txDelete s A t cond).2 = .okN n → ∀ i ∈ matching T cond, holder (txDelete s A t cond).1 t i = some A) := by
+  refine ⟨?_, ?_⟩
+  · intro upd hok i hi
+    obtain ⟨_, hform⟩ := txUpdate_ok_form hT hok
+    rw [hform]
+    have hne : (matching T cond).isEmpty = false := by
+      cases h : matching T cond with
+      | nil => rw [h] at hi; cases hi
+      | cons _ _ => rfl
+    simp only [hne, Bool.false_eq_true, ↓reduceIte]
+    have f := foldl_updateRow_locks A t upd (matching T cond) (lockAll s A t (matching T cond))
+    rw [holder_congr f.1 f.2.2.1 f.2.2.2.1]
+    exact holder_lockAll s A t i _ hi
+  · intro hok i hi
+    obtain ⟨_, hform⟩ := txDelete_ok_form hT hok
+    rw [hform]
+    have hne : (matching T cond).isEmpty = false := by
+      cases h : matching T cond with
+      | nil => rw [h] at hi; cases hi
+      | cons _ _ => rfl
+    simp only [hne, Bool.false_eq_true, ↓reduceIte]
+    have f := foldl_deleteRow_locks A t (matching T cond) (lockAll s A t (matching T cond))
+    rw [holder_congr f.1 f.2.2.1 f.2.2.2.1]
+    exact holder_lockAll s A t i _ hi
+
+/-- non-vacuity of `row_lock_exclusive` / `modified_row_locked`: A updates row 0, B's update and
+    delete of it, and a non-transactional update, all get `LockConflict` -/
+example : let s := run s0 (setupIdx ++ [.begin, .begin, .txUpdate 1 0 (.idEq 0) [(0, 4)]])
+    holder s 0 0 = some 1 ∧ (step s (.txUpdate 2 0 .all [(1, 0)])).2 = .err .lockConflict ∧
+    (step s (.txDelete 2 0 (.idEq 0))).2 = .err .lockConflict ∧
+    (step s (.update 0 (.eq 0 4) [(1, 0)])).2 = .err .lockConflict ∧ (step s (.delete 0 .all)).2 = .err .lockConflict := by
+  decide
+
+/-- `tx_insert` takes NO row lock: the exclusion above does not cover a row a transaction has
+    only inserted — another transaction can delete (or update) the uncommitted row. -/
+theorem inserted_row_not_locked_witness :
+    let s := run s0 (setupIdx ++ [.begin, .begin, .txInsert 1 0 [4, 4]])
+    holder s 0 1 = none ∧ (step s (.txDelete 2 0 (.idEq 1))).2 = .okN 1 ∧
+    (step s (.txUpdate 2 0 (.idEq 1) [(0, 5)])).2 = .okN 1 := by decide
+
+/-! ## locks disappear when the transaction ends or the lock times out -/
+
+/-- In every state reachable from the empty engine by ANY sequence of statements: when an open
+    transaction A commits or rolls back, no lock names A afterwards (`row_lock_holder` never
+    answers A, `locks_held_by(A) = 0`); and a lock older than the timeout has no holder and
+    blocks nobody. -/
+theorem locks_released_on_end_or_expiry (a b : Nat) (ops : List Op) (A : Nat) :
+    let s := run (init a b) ops
+    (gate s A = none → ∀ s', (s' = (commit s A).1 ∨ s' = (rollback s A).1) →
+      (∀ t i l, s'.locks t i = some l → l.tx ≠ A) ∧ (∀ t i, holder s' t i ≠ some A) ∧ s'.txLocks A = []) ∧
+    (∀ t i l d, s.locks t i = some l → s.now + d - l.acquiredAt > s.lockTimeout →
+      holder (tick s d) t i = none ∧ ∀ B, lockBlocked (tick s d) B t [i] = false) := by
+  intro s
+  have hinv : LockIdx s := lockIdx_run (lockIdx_init a b) ops
+  refine ⟨?_, ?_⟩
+  · intro hopen s' hs'
+    have hrel := release_clears hinv A
+    have key : s'.locks = (release s A).locks ∧ s'.txLocks = (release s A).txLocks ∧
+        s'.now = s.now ∧ s'.lockTimeout = s.lockTimeout := by
+      rcases hs' with h | h
+      · subst h; unfold commit; rw [hopen]; exact ⟨rfl, rfl, rfl, rfl⟩
+      · subst h; unfold rollback; rw [hopen]
+        simp only
+        have f := foldl_applyUndo_fields ((match s.txs A with | some x => x.undo | none => []).reverse) (s, 0)
+        have r := release_congr f.1 f.2.1 A
+        exact ⟨r.1, r.2, f.2.2.1, f.2.2.2.1⟩
+    have h1 : ∀ t i l, s'.locks t i = some l → l.tx ≠ A := by
+      intro t i l hl; rw [key.1] at hl; exact hrel.1 t i l hl
+    refine ⟨h1, ?_, by rw [key.2.1]; exact hrel.2⟩
+    intro t i hh
+    obtain ⟨l, hl, hA, _⟩ := holder_some hh
+    exact h1 t i l hl hA
+  · intro t i l d hl hd
+    have he : l.expired (s.now + d) s.lockTimeout = true := by simp [Lock.expired, hd]
+    refine ⟨by simp [holder, tick, hl, he], ?_⟩
+    intro B
+    simp [lockBlocked, tick, hl, he]
+
+/-- non-vacuity: A's lock is there, is gone after commit, and is gone after the timeout -/
+example : let s := run s0 (setupIdx ++ [.begin, .begin, .txUpdate 1 0 (.idEq 0) [(0, 4)]])
+    gate s 1 = none ∧ holder s 0 0 = some 1 ∧ holder (step s (.commit 1)).1 0 0 = none ∧
+    holder (step s (.rollback 1)).1 0 0 = none ∧ holder (step s (.tick 30001)).1 0 0 = none ∧
+    holder (step s (.tick 30000)).1 0 0 = some 1 ∧
+    (step (step s (.tick 30001)).1 (.txUpdate 2 0 (.idEq 0) [(0, 5)])).2 = .okN 1 := by decide
+
+/-! ## rollback -/
+
+/-- FRAME (every state, every undo log): rolling back touches only rows named in the
+    transaction's undo log — every other row of every table, alive or dead, keeps its exact
+    content, and the result is `Ok` or `RollbackFailed`, after which the transaction is gone. -/
+theorem rollback_changes_only_own_rows (s : State) (A : Nat) (x : Tx) (hx : s.txs A = some x)
+    (hact : x.phase = .active) (t i : Nat) (hfree : ∀ u ∈ x.undo, ¬(u.table = t ∧ u.row = i)) :
+    rowAt (rollback s A).1 t i = rowAt s t i ∧ (rollback s A).1.txs A = none := by
+  have hg : gate s A = none := by simp [gate, hx, hact]
+  unfold rollback
+  rw [hg]
+  simp only [hx]
+  refine ⟨?_, by simp⟩
+  have := foldl_applyUndo_rowAt_other x.undo.reverse (s, 0) t i
+    (fun u hu => hfree u (List.mem_reverse.1 hu))
+  simpa [rowAt] using this
+
+
+/-- what `tx_update` / `tx_delete` / `tx_insert` record: the undo entry of a row holds exactly the
+    row's values just before the statement (checked here on the per-row bodies) -/
+theorem undo_records_preimage (s : State) (A t i : Nat) (T : Table) (r : Row) (x : Tx)
+    (hT : s.tables t = some T) (hr : T.rows[i]? = some r) (hx : s.txs A = some x) :
+    (∀ upd, ∃ chg, ((updateRow A t upd s i).txs A).map (·.undo) = some (x.undo ++ [.updated t i r.vals chg]) ∧
+        rowAt (updateRow A t upd s i) t i = some { r with vals := applyUpd upd r.vals }) ∧
+    (∃ idx, ((deleteRow A t s i).txs A).map (·.undo) = some (x.undo ++ [.deleted t i r.vals idx]) ∧
+        rowAt (deleteRow A t s i) t i = some { r with alive := false }) := by
+  have hlt : i < T.rows.length := (List.getElem?_eq_some_iff.1 hr).1
+  have hget : T.rows[i] = r := (List.getElem?_eq_some_iff.1 hr).2
+  refine ⟨?_, ?_⟩
+  · intro upd
+    refine ⟨?w, ?h1, ?h2⟩
+    case h1 =>
+      simp only [updateRow, hT, hr, setTable_txs, recordUndo, hx, setTx_txs, ↓reduceIte, Option.map_some]
+      rfl
+    case h2 => simp [updateRow, hT, rowAt, hlt, hget]
+  · refine ⟨?w2, ?h3, ?h4⟩
+    case h3 =>
+      simp only [deleteRow, hT, hr, setTable_txs, recordUndo, hx, setTx_txs, ↓reduceIte, Option.map_some]
+      rfl
+    case h4 => simp [deleteRow, hT, rowAt, hlt, hget]
+
+/-- `rollback_restores`, the part that holds (PARTIAL — see below for what is missing).
+    For ANY state and ANY open transaction A whose undo log names row `(t,i)` exactly once
+    (entry `u`; the other entries, before and after, are about other rows): after `rollback A`
+    the row is exactly `undoRow u` of its current content — i.e.
+      * `UpdatedRow old`  and the row is alive   ⇒ alive with values `old`,
+      * `DeletedRow old`  and the row is dead    ⇒ alive again with values `old`,
+      * `InsertedRow`                            ⇒ dead,
+    and by `undo_records_preimage` `old` is the row's content just before A's statement, so the
+    row is back at its pre-transaction image provided nobody else changed it since (which
+    `row_lock_exclusive` guarantees for updated/deleted rows until the lock times out).
+    MISSING for full strength: (1) rows written several times by the same transaction (the chain
+    of entries is not composed here); (2) the side condition "no other unfinished transaction
+    touched a row inserted by A" is necessary — `rollback_restores_witness`; (3) index entries:
+    restored only for indexes that existed when the statement ran — `rollback_index_restore_witness`,
+    `undo_ghost_btree_entry_witness`. The run-level claim is checked on the real engine by the
+    snapshot / committed-state / index oracles of `corr_reltx`. -/
+theorem rollback_restores_partial (s : State) (A t i : Nat) (x : Tx) (T : Table) (r : Row)
+    (hx : s.txs A = some x) (hact : x.phase = .active)
+    (pre post : List Undo) (u : Undo) (hlog : x.undo = pre ++ [u] ++ post)
+    (hu : u.table = t ∧ u.row = i) (hothers : ∀ v ∈ pre ++ post, ¬(v.table = t ∧ v.row = i))
+    (hT : s.tables t = some T) (hr : T.rows[i]? = some r) :
+    rowAt (rollback s A).1 t i = some (undoRow T.ncols u r) := by
+  have hg : gate s A = none := by simp [gate, hx, hact]
+  obtain ⟨ht, hi⟩ := hu
+  subst ht; subst hi
+  unfold rollback
+  rw [hg]
+  simp only [hx, hlog, List.reverse_append, List.reverse_cons, List.reverse_nil, List.nil_append,
+    List.foldl_append, List.foldl_cons, List.foldl_nil]
+  have hrow0 : rowAt s u.table u.row = some r := by simp [rowAt, hT, hr]
+  have hn0 : ncolsAt s u.table = some T.ncols := by simp [ncolsAt, hT]
+  -- entries recorded after `u` are undone first and do not touch the row
+  have h1 := foldl_applyUndo_rowAt_other post.reverse (s, 0) u.table u.row
+    (fun v hv => hothers v (List.mem_append_right _ (List.mem_reverse.1 hv)))
+  have h1n := foldl_applyUndo_ncolsAt post.reverse (s, 0) u.table
+  have h2 := applyUndo_rowAt_self (post.reverse.foldl applyUndo (s, 0)) u T.ncols r
+    (by rw [h1n]; exact hn0) (by rw [h1]; exact hrow0)
+  -- entries recorded before `u` are undone last and do not touch it either
+  have h3 := foldl_applyUndo_rowAt_other pre.reverse (applyUndo (post.reverse.foldl applyUndo (s, 0)) u) u.table u.row
+    (fun v hv => hothers v (List.mem_append_left _ (List.mem_reverse.1 hv)))
+  simp only [rowAt, setTx_tables, release_tables] at h2 h3 ⊢
+  rw [h3, h2]
+
+/-- a transaction (id 2) that updated row 0, deleted row 1 and inserted row 2 — each row named once -/
+def sThree : State :=
+  run s0 (setupIdx ++ [.insert 0 [2, 2], .begin, .txUpdate 2 0 (.idEq 0) [(0, 4)], .txDelete 2 0 (.idEq 1), .txInsert 2 0 [3, 3]])
+
+/-- non-vacuity of `rollback_restores_partial`: the three cases of `undoRow`, and the index-served
+    queries after the rollback -/
+example :
+    (sThree.txs 2).map (·.undo) = some [.updated 0 0 [1, 1] [(0, 1, 4), (0, 1, 4)], .deleted 0 1 [2, 2] [(0, 2), (0, 2)],
+                                        .inserted 0 2 [(0, 3), (0, 3)]] ∧
+    (sThree.tables 0).map (·.rows) = some [⟨true, [4, 1]⟩, ⟨false, [2, 2]⟩, ⟨true, [3, 3]⟩] ∧
+    ((rollback sThree 2).1.tables 0).map (·.rows) = some [⟨true, [1, 1]⟩, ⟨true, [2, 2]⟩, ⟨false, [3, 3]⟩] := by decide
+
+example :
+    ((rollback sThree 2).1.tables 0).map (fun T => (select T (.ge 0 0), select T (.eq 0 1), select T (.eq 0 4))) =
+      some ([(0, [1, 1]), (1, [2, 2])], [(0, [1, 1])], []) := by decide
+
+/-- `rollback_restores` at full strength is FALSE of the code.  Witness (two transactions,
+    statement granularity): A inserts a row (no lock is taken), B deletes that uncommitted row,
+    A rolls back (`slab.delete` on the already dead row reports nothing), B rolls back
+    (`restore_deleted_row` revives it).  Both transactions rolled back — and the table has a
+    row it did not have before either of them started; every statement answered `Ok`. -/
+theorem rollback_restores_witness :
+    let ops : List Op := setupIdx ++ [.begin, .begin, .txInsert 1 0 [4, 4], .txDelete 2 0 (.idEq 1), .rollback 1, .rollback 2]
+    let pre := run s0 setupIdx
+    let fin := run s0 ops
+    runRes s0 ops = [.okN 0, .ok, .ok, .okN 0, .okN 1, .okN 2, .okN 1, .okN 1, .ok, .ok] ∧
+    (pre.tables 0).map (scanAnswer · .all) = some [(0, [1, 1])] ∧
+    (fin.tables 0).map (scanAnswer · .all) = some [(0, [1, 1]), (1, [4, 4])] ∧
+    (fin.tables 0).map (select · (.eq 0 4)) = some [(1, [4, 4])] ∧
+    fin.txs 1 = none ∧ fin.txs 2 = none := by decide
+
+/-- Second hole, index side: an index created between a transaction's statement and its
+    rollback is not maintained by the undo (the undo entry lists only the indexes that existed
+    when the statement ran).  After the rollback the row is back, but the queries answered
+    through the new hash / b-tree index do not find it. -/
+theorem rollback_index_restore_witness :
+    let ops : List Op := setupPlain ++ [.begin, .txUpdate 1 0 (.idEq 0) [(0, 4)], .createBtree 0 0, .createIndex 0 0, .rollback 1]
+    let fin := run s0 ops
+    (fin.tables 0).map (scanAnswer · (.le 0 1)) = some [(0, [1, 1])] ∧
+    (fin.tables 0).map (select · (.le 0 1)) = some [] ∧
+    (fin.tables 0).map (scanAnswer · (.eq 0 1)) = some [(0, [1, 1])] ∧
+    (fin.tables 0).map (select · (.eq 0 1)) = some [] := by decide
+
+/-- Third hole: the undo of an update / delete re-applies hash AND b-tree entry changes for every
+    listed column whether or not that index exists; `btree_index_add` creates the in-memory map
+    for a b-tree that was never created, and a later `create_btree_index` keeps the ghost entry:
+    a purely sequential script after which a range query returns the same row twice. -/
+theorem undo_ghost_btree_entry_witness :
+    let ops : List Op := [.createTable 2, .createIndex 0 0, .insert 0 [1, 1], .begin,
+        .txUpdate 1 0 (.idEq 0) [(0, 2)], .rollback 1, .update 0 (.idEq 0) [(0, 3)], .createBtree 0 0]
+    let fin := run s0 ops
+    (fin.tables 0).map (scanAnswer · (.ge 0 0)) = some [(0, [3, 1])] ∧
+    (fin.tables 0).map (select · (.ge 0 0)) = some [(0, [3, 1]), (0, [3, 1])] := by decide
+
+/-- `TransactionManager::cleanup_expired` drops a timed-out transaction WITHOUT applying its undo
+    log: its statements stay in the tables although it never committed (and `commit` then
+    answers `TransactionNotFound`). -/
+theorem tx_timeout_keeps_changes_witness :
+    let ops : List Op := setupIdx ++ [.begin, .txUpdate 1 0 (.idEq 0) [(0, 4)], .tick 60001, .cleanupTxs]
+    let fin := run s0 ops
+    (runRes s0 ops).getLast? = some (.okN 1) ∧ fin.txs 1 = none ∧
+    (fin.tables 0).map (scanAnswer · .all) = some [(0, [4, 1])] ∧ (commit fin 1).2 = .err .txNotFound := by decide
+
+
 end Neumann.RelTx.Props
